@@ -36,24 +36,79 @@ def run_solver(name, path, timeout):
     return ans, time.time() - t0
 
 
+def _parse(out):
+    lines = (out or "").strip().splitlines()
+    ans = lines[0].strip() if lines else "error"
+    if ans not in ("sat", "unsat", "unknown", "timeout"):
+        ans = "error:" + " ".join(lines[:2])[:200]
+    return ans
+
+
+def race(path, names, timeout):
+    """run several solvers on the same file concurrently; the first definitive answer wins and the others
+    are killed.  Returns {solver: (answer, seconds)} for the solvers that answered (or timed out)."""
+    t0 = time.time()
+    procs = {n: subprocess.Popen(SOLVERS[n](path, timeout), stdout=subprocess.PIPE, stderr=subprocess.PIPE, text=True)
+             for n in names}
+    times = {}
+    pending = dict(procs)
+    winner = None
+    while pending and time.time() - t0 < timeout + 5:
+        for n, p in list(pending.items()):
+            if p.poll() is not None:
+                out, err = p.communicate()
+                ans = _parse(out)
+                times[n] = (ans, round(time.time() - t0, 3))
+                del pending[n]
+                if ans in ("sat", "unsat") and winner is None:
+                    winner = n
+        if winner:
+            break
+        time.sleep(0.01)
+    for n, p in pending.items():
+        p.kill()
+        p.communicate()
+        if not winner:
+            times[n] = ("timeout", round(time.time() - t0, 3))
+    return times
+
+
 def decide(smt, outdir, timeout=20, order=("z3-5.1", "cvc5-1.0.3", "z3-4.8.12"), all_solvers=False):
-    """returns dict(verdict=unsat|sat|unknown, by=solver, times={solver: (answer, seconds)})"""
+    """returns dict(verdict=unsat|sat|unknown|disagree, by=solver, times={solver: (answer, seconds)})
+    quick: z3 5.1 alone for a short slice (most obligations take milliseconds), then z3 5.1 and cvc5 raced,
+    then z3 4.8.12; thorough (all_solvers): every solver answers every obligation and they must agree."""
     h = hashlib.sha1(smt.encode()).hexdigest()[:16]
     path = os.path.join(outdir, "%s.smt2" % h)
     with open(path, "w") as f:
         f.write(smt)
     times = {}
     verdict, by = "unknown", None
-    for name in order:
-        ans, dt = run_solver(name, path, timeout)
-        times[name] = (ans, round(dt, 3))
+    if all_solvers:
+        for name in order:
+            ans, dt = run_solver(name, path, timeout)
+            times[name] = (ans, round(dt, 3))
+            if ans in ("sat", "unsat"):
+                if verdict == "unknown":
+                    verdict, by = ans, name
+                elif verdict != ans:
+                    verdict, by = "disagree", name
+    else:
+        first = order[0]
+        ans, dt = run_solver(first, path, min(2, timeout))
+        times[first] = (ans, round(dt, 3))
         if ans in ("sat", "unsat"):
-            if verdict == "unknown":
-                verdict, by = ans, name
-            elif verdict != ans:
-                verdict, by = "disagree", name
-            if not all_solvers:
-                break
+            verdict, by = ans, first
+        elif len(order) > 1:
+            rt = race(path, [n for n in order[:2]], timeout)
+            for n, (a, d) in rt.items():
+                times[n + ("+" if n in times else "")] = (a, d)
+                if a in ("sat", "unsat") and verdict == "unknown":
+                    verdict, by = a, n
+            if verdict == "unknown" and len(order) > 2:
+                ans, dt = run_solver(order[2], path, timeout)
+                times[order[2]] = (ans, round(dt, 3))
+                if ans in ("sat", "unsat"):
+                    verdict, by = ans, order[2]
     if verdict == "unsat":
         try:
             os.unlink(path)
